@@ -17,7 +17,7 @@ Ltac thr_tac :=
   (split; [intros ?Hp|split; [intros ?Hd ?Hne|intros ?Hh ?Ha]]);
   try (exfalso; match goal with H : _ <> EShutdownCall |- _ => apply H; reflexivity end);
   try congruence;
-  unfold get_thread in *; sup_simpl; cbn -[get Assoc.set N.eqb] in *; rewrite ?N.eqb_refl; cbn -[get Assoc.set N.eqb];
+  unfold get_thread in *; sup_simpl; cbn -[get Assoc.set N.eqb] in *; sup_simpl; cbn -[get Assoc.set N.eqb] in *; rewrite ?N.eqb_refl; cbn -[get Assoc.set N.eqb];
   try reflexivity; try congruence;
   try (match goal with H : pend _ = None |- _ => rewrite H end; reflexivity);
   try (repeat match goal with |- context[if ?b then _ else _] => destruct b end; reflexivity).
@@ -158,7 +158,7 @@ Ltac none_tac :=
     | match ?b with _ => _ end => destruct b eqn:?
     | if ?b then _ else _ => destruct b eqn:?
     end end);
-  sup_simpl; cbn -[get Assoc.set N.eqb];
+  sup_simpl; cbn -[get Assoc.set N.eqb]; sup_simpl; cbn -[get Assoc.set N.eqb];
   repeat match goal with
   | |- context[N.eqb ?a jj] => destruct (N.eqb_spec a jj); [subst|]
   end; try congruence; try (rewrite Hjj; reflexivity).
